@@ -2,6 +2,7 @@ package scen
 
 import (
 	"context"
+	"errors"
 	"fmt"
 	"strings"
 	"time"
@@ -13,6 +14,9 @@ import (
 // A history is a string over
 //   m  ordinary message            x  message whose first delivery panics
 //   X  message that always panics  P  Poison (graceful)      S  Stop
+//   i  message whose first delivery panics with an *actor.InternalError (restarted like any panic; the
+//      repository exempts it from the restart budget, which the properties neither demand nor forbid:
+//      the oracle accepts both readings, see histOracle)
 // delivered to one actor "A" either from A's own Started handler (everything sits in the
 // ring before Inbox.Start: one batch) or from a driver thread racing with the worker.
 type histParams struct {
@@ -29,7 +33,11 @@ type histParams struct {
 	SlowStop    bool   // the receiver yields inside its Stopped handler (a handler that takes a moment)
 	StopInStop  int    // 1/2: while the receiver is inside its final Stopped handler another thread issues a Poison/Stop for it (blocking hand-off)
 	Child       bool   // incarnation 1 spawns a child in its Started handler
+	SplitMW     bool   // the chain is given as two WithMiddleware options ([mw1] and [mw2..n]) instead of one
+	OtherMW     bool   // right after the spawn a second actor is spawned with a chain of its own (same length, other middlewares)
+	ChildEvery  bool   // with Child: EVERY incarnation spawns the (fixed-id) child in Started - after a restart that is a duplicate, the child of the first incarnation lives on
 	StopPanics  bool   // the receiver panics (once) while handling Stopped
+	iCounts     bool   // reading of the reference: an InternalError panic consumes restart budget like any other
 	LC          string // lifecycle handlers that panic once: comma separated "<incarnation><I|S>", e.g. "2S" = Started of incarnation 2
 }
 
@@ -56,6 +64,15 @@ func (hp histParams) String() string {
 	}
 	if hp.Child {
 		lc += "child"
+	}
+	if hp.ChildEvery {
+		lc += "every"
+	}
+	if hp.SplitMW {
+		lc += "splitmw"
+	}
+	if hp.OtherMW {
+		lc += "othermw"
 	}
 	if hp.Watch {
 		lc += "watch"
@@ -114,7 +131,7 @@ func (h *histRun) watch(e *actor.Engine, ctx context.Context, kind byte, n int) 
 
 func (h *histRun) issue(i int, e *actor.Engine) {
 	switch h.hp.Hist[i] {
-	case 'm', 'x', 'X':
+	case 'm', 'x', 'X', 'i':
 		e.Send(h.pid, i)
 	case 'P':
 		ctx := e.Poison(h.pid)
@@ -158,7 +175,7 @@ func (h *histRun) behave(k *Kit, c *actor.Context, inc int) {
 			h.lcDone[fmt.Sprint(inc, "S")] = true
 			panic(fmt.Sprintf("Started of incarnation %d", inc))
 		}
-		if h.hp.Child && inc == 1 {
+		if h.hp.Child && (inc == 1 || h.hp.ChildEvery) {
 			c.SpawnChild(k.Producer("K", nil), "kid", actor.WithID("1"))
 		}
 		if h.hp.Mode == 0 && !h.issued {
@@ -210,6 +227,11 @@ func (h *histRun) behave(k *Kit, c *actor.Context, inc int) {
 				}
 			case 'X':
 				panic(fmt.Sprintf("X%d", m))
+			case 'i':
+				if !h.paniced[m] {
+					h.paniced[m] = true
+					panic(&actor.InternalError{From: fmt.Sprintf("i%d", m), Err: errors.New("internal")})
+				}
 			}
 		}
 	}
@@ -257,12 +279,27 @@ func histInstance(variants []histParams, oracle func(h *histRun, r *vsched.Resul
 		for i := 0; i < hp.NMW; i++ {
 			mws = append(mws, h.middleware(i+1))
 		}
-		if len(mws) > 0 {
+		if len(mws) > 1 && hp.SplitMW {
+			opts = append(opts, actor.WithMiddleware(mws[0]), actor.WithMiddleware(mws[1:]...))
+		} else if len(mws) > 0 {
 			opts = append(opts, actor.WithMiddleware(mws...))
 		}
 		h.pid = actor.NewPID("local", "a/1")
 		k.E.Spawn(k.Producer("A", h.behave), "a", opts...)
 		h.spawnRet = true
+		if hp.OtherMW {
+			var other []actor.MiddlewareFunc
+			for i := 0; i < hp.NMW; i++ {
+				i := i
+				other = append(other, func(next actor.ReceiveFunc) actor.ReceiveFunc {
+					return func(c *actor.Context) {
+						k.add(Ev{Kind: "mw+", Actor: "O", Inc: i + 1, Msg: Render(c.Message())})
+						next(c)
+					}
+				})
+			}
+			k.E.Spawn(k.Producer("O", nil), "o", actor.WithID("1"), actor.WithMiddleware(other...))
+		}
 		for _, e := range k.Recv("A") {
 			if e.Msg == "Started" {
 				h.startedAtSpawnRet = true
@@ -299,7 +336,8 @@ func histInstance(variants []histParams, oracle func(h *histRun, r *vsched.Resul
 type histRef struct {
 	mustDeliver map[int]bool // message index must be delivered exactly once
 	mayDeliver  map[int]bool
-	crashes     int  // number of crash deliveries that lead to a restart
+	internal    int  // number of InternalError crashes (each restarts the actor; counted in crashes only under the iCounts reading)
+	crashes     int  // number of crash deliveries that lead to a restart and count against the budget
 	terminal    byte // 0 none, 'P', 'S', 'E' (budget exhausted)
 	termIdx     int
 	exhausted   bool
@@ -342,7 +380,7 @@ func refHistoryLC(hp histParams) histRef {
 	for i := 0; i < len(hist); i++ {
 		c := hist[i]
 		if ref.terminal != 0 {
-			if c == 'm' || c == 'x' || c == 'X' {
+			if c == 'm' || c == 'x' || c == 'X' || c == 'i' {
 				if ref.terminal == 'P' {
 					ref.mayDeliver[i] = true
 				}
@@ -357,6 +395,20 @@ func refHistoryLC(hp histParams) histRef {
 			ref.mustDeliver[i] = true
 			ref.incOf[i] = inc
 			if restarts == maxRestarts {
+				ref.terminal, ref.termIdx, ref.exhausted = 'E', i, true
+			} else {
+				restarts++
+				inc++
+				startInc(i)
+			}
+		case 'i':
+			ref.mustDeliver[i] = true
+			ref.incOf[i] = inc
+			ref.internal++
+			if !hp.iCounts {
+				inc++
+				startInc(i)
+			} else if restarts == maxRestarts {
 				ref.terminal, ref.termIdx, ref.exhausted = 'E', i, true
 			} else {
 				restarts++
@@ -438,12 +490,30 @@ func userMsgs(evs []Ev) []Ev {
 
 // histOracle is the common oracle of the history scenarios; props selects the clauses.
 func histOracle(h *histRun, r *vsched.Result) []vsched.Violation {
+	if !strings.ContainsRune(h.hp.Hist, 'i') {
+		return histOracleReading(h, r, false)
+	}
+	// InternalError panics: the code restarts without touching the budget (and without an
+	// ActorRestartedEvent); the properties say neither that nor the opposite. The execution must
+	// satisfy one of the two readings as a whole.
+	a := histOracleReading(h, r, false)
+	if len(a) == 0 {
+		return nil
+	}
+	if b := histOracleReading(h, r, true); len(b) == 0 {
+		return nil
+	}
+	return a
+}
+
+func histOracleReading(h *histRun, r *vsched.Result, iCounts bool) []vsched.Violation {
 	vs := stdEnd(r)
 	if len(vs) > 0 {
 		return vs
 	}
 	k := h.k
 	hp := h.hp
+	hp.iCounts = iCounts
 	ref := refHistoryLC(hp)
 	vs = append(vs, k.serial()...)
 	ended := ref.terminal != 0
@@ -482,7 +552,7 @@ func histOracle(h *histRun, r *vsched.Result) []vsched.Violation {
 			}
 		case n > 1:
 			sig := "redelivery/message-delivered-twice"
-			if hp.Hist[id] == 'x' || hp.Hist[id] == 'X' {
+			if hp.Hist[id] == 'x' || hp.Hist[id] == 'X' || hp.Hist[id] == 'i' {
 				sig = "redelivery/failing-message-redelivered"
 			}
 			vs = append(vs, V(sig, "history %s: message %d delivered %d times; log: %s", hp.Hist, id, n, k.LogString()))
@@ -497,6 +567,9 @@ func histOracle(h *histRun, r *vsched.Result) []vsched.Violation {
 	}
 	// restarts
 	wantInc := 1 + ref.crashes
+	if !iCounts {
+		wantInc += ref.internal
+	}
 	if crashBehindPoison(hp.Hist) {
 		// a panic while draining behind a graceful pill: the property demands containment and that
 		// the stop completes, not whether the actor is restarted once more before it stops
@@ -506,10 +579,19 @@ func histOracle(h *histRun, r *vsched.Result) []vsched.Violation {
 		vs = append(vs, V("restart/wrong-number-of-incarnations", "history %s maxRestarts %d: %d incarnations, want %d; log: %s", hp.Hist, hp.MaxRestarts, k.Incs("A"), wantInc, k.LogString()))
 	}
 	rest := k.EventsMatching("ActorRestarted(")
-	if len(rest) != ref.crashes {
+	evLo, evHi := ref.crashes, ref.crashes // an ActorRestartedEvent for an InternalError restart is neither demanded nor forbidden
+	if iCounts {
+		evLo -= ref.internal
+	} else {
+		evHi += ref.internal
+	}
+	if len(rest) < evLo || len(rest) > evHi {
 		vs = append(vs, V("restart/wrong-number-of-restarted-events", "history %s: events %v, want %d", hp.Hist, rest, ref.crashes))
 	}
 	for i, s := range rest {
+		if ref.internal > 0 {
+			break
+		}
 		if want := fmt.Sprintf("ActorRestarted(local/a/1,%d)", i+1); s != want {
 			vs = append(vs, V("restart/wrong-restart-count-in-event", "event %d is %s, want %s", i, s, want))
 		}
@@ -545,7 +627,7 @@ func stopBehindExhaustion(hist string, maxRestarts int) bool {
 // crashBehindPoison: a message that panics is queued behind a graceful pill.
 func crashBehindPoison(hist string) bool {
 	p := strings.IndexByte(hist, 'P')
-	return p >= 0 && strings.IndexAny(hist[p:], "xX") >= 0
+	return p >= 0 && strings.IndexAny(hist[p:], "xXi") >= 0
 }
 
 // histTail: stop contexts, late probe, bystander, middleware clauses of the history oracle.
@@ -781,6 +863,35 @@ func init() {
 			Make: func() vsched.Instance { return histInstance(v6, histOracle) }})
 	}
 
+	// C05/C06: panics with *actor.InternalError (the one panic value tryRestart treats differently).
+	for _, mode := range []int{0, 1} {
+		var v5, v6 []histParams
+		for _, hs := range []string{"i", "im", "mim", "ixm", "xim", "iim", "mi"} {
+			v5 = append(v5, histParams{Hist: hs, MaxRestarts: 2, Mode: mode, Late: true, Bystander: true})
+		}
+		v5 = append(v5, histParams{Hist: "im", MaxRestarts: 2, Mode: mode, Late: true, NMW: 1}, histParams{Hist: "mim", MaxRestarts: 2, Mode: mode, Late: true, Delay: true})
+		for _, hc := range []struct {
+			r int
+			h string
+		}{{0, "iX"}, {0, "iXm"}, {1, "xiX"}, {1, "ixX"}, {1, "xiXm"}, {1, "iXmX"}, {2, "xixX"}} {
+			v6 = append(v6, histParams{Hist: hc.h, MaxRestarts: hc.r, Mode: mode, Late: true, Bystander: true})
+		}
+		// a parent that re-spawns its fixed-id child in every Started (a duplicate after a restart) and then
+		// exhausts its budget: the child of the first incarnation goes down with it
+		for _, hc := range []struct {
+			r int
+			h string
+		}{{1, "xX"}, {1, "XmX"}, {2, "xxX"}} {
+			v6 = append(v6, histParams{Hist: hc.h, MaxRestarts: hc.r, Mode: mode, Late: true, Child: true, ChildEvery: true})
+		}
+		Register(&Job{Name: fmt.Sprintf("C05/hist/internal-error-panics-mode%d", mode), Prop: "C05", Bound: 1, BoundT: 2, Budget: 40, BudgetT: 600,
+			Desc: fmt.Sprintf("%d histories over {m,x,i}: i panics with *actor.InternalError (restarted like any panic; whether it consumes restart budget / publishes ActorRestartedEvent is left open, both readings accepted): containment, Stopped to the failed incarnation, tail delivered once and in order to the next", len(v5)),
+			Make: func() vsched.Instance { return histInstance(v5, histOracle) }})
+		Register(&Job{Name: fmt.Sprintf("C06/hist/internal-error-and-respawned-child-mode%d", mode), Prop: "C06", Bound: 1, BoundT: 2, Budget: 40, BudgetT: 600,
+			Desc: fmt.Sprintf("%d histories: InternalError panics mixed with ordinary ones around the exhaustion of MaxRestarts 0..2 (the ordinary panic after the budget is used up terminates the actor, under either reading of InternalError); a parent that re-spawns its fixed-id child in every Started and then exhausts its budget takes the child down with it", len(v6)),
+			Make: func() vsched.Instance { return histInstance(v6, histOracle) }})
+	}
+
 	// C06: budget exhaustion. MaxRestarts r, histories with exactly r+1 crashes among <=r+3 symbols.
 	for _, mode := range []int{0, 1} {
 		var vq, vt []histParams
@@ -920,7 +1031,17 @@ func init() {
 		for _, h := range []string{"X", "mX", "xX"} {
 			vs = append(vs, histParams{Hist: h, MaxRestarts: map[string]int{"X": 0, "mX": 0, "xX": 1}[h], NMW: n, Mode: 0})
 		}
-		_ = vs
+		// the InternalError restart path; the chain given as two options; a second actor with another chain
+		// spawned right afterwards (the late probe and Stopped still run through A's own chain)
+		for _, h := range []string{"i", "mim"} {
+			vs = append(vs, histParams{Hist: h, MaxRestarts: 1, NMW: n, Mode: 0}, histParams{Hist: h, MaxRestarts: 1, NMW: n, Mode: 1})
+		}
+		for _, h := range []string{"m", "x", "mP"} {
+			vs = append(vs, histParams{Hist: h, MaxRestarts: 1, NMW: n, Mode: 1, Late: true, OtherMW: true})
+			if n > 1 {
+				vs = append(vs, histParams{Hist: h, MaxRestarts: 1, NMW: n, Mode: 0, Late: true, SplitMW: true})
+			}
+		}
 		Register(&Job{Name: fmt.Sprintf("C13/hist/chain%d", n), Prop: "C13", Bound: 1, BoundT: 2, Budget: 40, BudgetT: 600,
 			Desc: fmt.Sprintf("middleware chain of %d recording middlewares; %d histories covering spawn, stop, poison, crash/restart and max-restarts paths", n, len(vs)),
 			Make: func() vsched.Instance { return histInstance(vs, histOracle) }})
